@@ -6,6 +6,7 @@ from lib import common as C
 
 SEQS = [0, 1, 255, 256, 257, 65535, 65536, 2**31, 2**32 - 1, 2**32, 2**32 + 1, 2**56 - 1, 2**56, 2**63 - 1, 2**63, 2**64 - 2, 2**64 - 1]
 KEYLENS = [0, 1, 2, 39, 40, 41, 255, 256, 4096]
+LONGKEYS = [65000, 65001, 65535, 65536, 100000]      # far beyond what any key-value store's own key limit would be
 GOLDEN = os.path.join(C.CORPUS, "c19_golden.txt")
 
 
@@ -40,6 +41,9 @@ def gen(rng, tier):
             for ik in range(3):
                 cases.append("m%d m %d %s %s %s" % (i, s, hx(rid(rng, ik)), hx(rid(rng, (ik + 1) % 3)), hx(rkey(rng, kl))))
                 i += 1
+    for kl in LONGKEYS:
+        cases.append("m%d m %d %s %s %s" % (i, rng.choice(SEQS), hx(rid(rng, 2)), hx(rid(rng, 2)), hx(rkey(rng, kl))))
+        i += 1
     nrand = 500 if tier == "quick" else 20000
     for _ in range(nrand):
         s = rng.choice([rng.randrange(2**64), rng.randrange(2**16), rng.choice(SEQS)])
@@ -75,7 +79,7 @@ def gen(rng, tier):
         for q in range(k):
             cid = rng.choice(cids) if (cids and rng.random() < 0.1) else rid(rng, 2)
             cids.append(cid)
-            kl = rng.choice([0, 0, 1, 3, 7, 8, 20, 64, 300])
+            kl = rng.choice([0, 0, 1, 3, 7, 8, 20, 64, 300]) if rng.random() < 0.97 else rng.choice(LONGKEYS)
             recs.append("%d,%s,%s,%s" % (rng.choice([rng.randrange(1, 2**40), rng.choice(SEQS)]), hx(rid(rng, rng.randrange(3))), hx(cid),
                                          hx(rkey(rng, kl))))
         cases.append("b%d B %s %s" % (j, rng.choice(["tx", "tx", "one"]), ";".join(recs) if recs else "-"))
